@@ -1,0 +1,17 @@
+//go:build verif
+
+package autofile
+
+// Add-only wrappers for the out-of-tree verification harness (/verif, family `wal`, property C15).
+
+// VerifCheckHeadSizeLimit runs the head-size check that processTicks runs on every tick of the
+// group's ticker (rotates the head when its size has reached the limit).
+func (g *Group) VerifCheckHeadSizeLimit() { g.checkHeadSizeLimit() }
+
+// VerifSetHeadSizeLimit changes the head size limit of an open group (GroupHeadSizeLimit can only
+// set it when the group is opened).
+func (g *Group) VerifSetHeadSizeLimit(limit int64) {
+	g.mtx.Lock()
+	g.headSizeLimit = limit
+	g.mtx.Unlock()
+}
